@@ -74,6 +74,7 @@ class TabWorld:
         self.dir = Path(workdir)
         os.makedirs(self.dir, exist_ok=True)
         self.tables = {}
+        self.frame_readers = {}  # table -> DataFrameReader that lives as long as the world (in-memory tables persist)
         self.counter = 0
         self.stats = {"ops": 0, "reads": 0, "chunked_reads": 0, "appends": 0, "finalized": 0, "merges": 0,
                       "sortedness_faults": 0, "multi_chunk_reads": 0, "buffer_flushes": 0, "tie_merges": 0}
@@ -214,8 +215,20 @@ class TabWorld:
 
         t = self.tables[table]
         cols, types, rows = list(t["columns"]), list(t["types"]), t["rows"]
-        if via == "frame":
-            return DataFrameReader(self._df(cols, types, rows)), cols, rows
+        if via in ("frame", "mapped_frame"):
+            fr = self.frame_readers.get(table)
+            if fr is None:
+                fr = self.frame_readers[table] = DataFrameReader(self._df(cols, types, rows))
+            if via == "frame":
+                return fr, cols, rows
+            # a renamed view of the in-memory table; the map may swap two names (new names that are also old names)
+            k = (rename or 0) % max(1, len(cols))
+            if len(cols) >= 2 and (rename or 0) % 2 == 1:
+                a, b = cols[k], cols[(k + 1) % len(cols)]
+                cmap = {a: b, b: a}
+            else:
+                cmap = {cols[k]: f"{cols[k]}_m"}
+            return ColumnMappedReader(fr, cmap), [cmap.get(c, c) for c in cols], rows
         base = TabularDataReader.from_path(t["path"])
         if via == "direct":
             return base, cols, rows
